@@ -798,6 +798,8 @@ def sym_str(v):
         return 'True' if bool(v) else 'False'
     if isinstance(v, (SymChoice, SymInt)):
         return _real_str(v.concretize())
+    if type(v) in (dict, list, tuple) and has_sym(v):
+        return _real_str(concretize_value(v))
     return _real_str(v)
 
 
